@@ -2004,3 +2004,149 @@ Lemma wr_throw_step_t cf t c g pr sl fr fid snap rest ph r ok :
         [E K_CALL 0 fid; E K_THROW 0 (Z.of_nat (calls g))] ++
         match fr with FGuard _ _ => [] | FUse _ => [catch_ev] end).
 Proof. intros H. apply tstep_eq0; [apply wr_throw_step; exact H|destruct fr; reflexivity]. Qed.
+
+(* ================================================================== *)
+(* C01: termination in existence form (Common/Progress.v)                 *)
+(* ================================================================== *)
+From GV Require Import Progress.
+
+(* remaining phases of an instruction / weight of a body: every step of a body lowers it *)
+Definition rem_mi (i : mi) (ph : nat) : nat :=
+  match i with
+  | MCall _ _ => 1
+  | MRead | MWrite _ _ => match ph with O => 2 | _ => 1 end
+  | MIncr => match ph with 0 => 4 | 1 => 3 | 2 => 2 | _ => 1 end
+  | MReadE _ _ => match ph with O => 8 | _ => 7 end     (* its own phases + the longest compare_exchange branch *)
+  end%nat.
+Fixpoint wcode (code : list mi) : nat :=
+  match code with [] => 0 | i :: r => rem_mi i 0 + wcode r end%nat.
+Definition wpc (p : pc) : nat :=
+  match p with
+  | Idle => 0
+  | HAcq _ _ _ => 2
+  | HRelOld _ _ | HRel _ | GRel _ _ _ _ => 1
+  | GAcq _ => 12
+  | Run _ [] _ _ _ => 1
+  | Run _ (i :: rest) ph _ _ => rem_mi i ph + wcode rest + 1
+  end%nat.
+Definition wloc (l : loc) : nat := (14 * length (prog l) + wpc (at_ l))%nat.
+Definition mu (s : sysW) : nat := list_sum (map wloc (thr s)).
+Definition any_choice (c : nat) : bool := true.   (* no choice is a retry: every enabled step is work *)
+
+Lemma wop_code_weight cf o gsh code : wop_code cf o = Some (gsh, code) -> (wcode code <= 10)%nat.
+Proof.
+  unfold wop_code. destruct o; try discriminate; destruct (flav cf); destruct (plain cf); cbn; intros H; inversion H; cbn; lia.
+Qed.
+Lemma exec_mi_weight cf t i ph r ok g rest :
+  (m_done (exec_mi cf t i ph r ok g) = false -> (rem_mi i (S ph) < rem_mi i ph)%nat) /\
+  (1 <= rem_mi i ph)%nat /\
+  (m_done (exec_mi cf t i ph r ok g) = true ->
+   (wcode (match m_rest (exec_mi cf t i ph r ok g) with Some c' => c' | None => rest end) + 1 <= rem_mi i ph + wcode rest)%nat).
+Proof.
+  unfold exec_mi, rd_begin, rd_end, wr_begin, wr_end.
+  destruct i as [fid snap| |[|b] s| |e d];
+    [| destruct ph | destruct ph | destruct ph | destruct ph as [|[|[|ph]]] | destruct ph]; cbn;
+    try (destruct (existsb _ _); cbn); repeat split; intros; try discriminate; try lia.
+  unfold cas_branch, cas_branch_plain. destruct (plain cf); destruct (r =? e); cbn; lia.
+Qed.
+
+Lemma wloc_step0 cf t c g l g' l' es : tstep0 cf t c g l = Some (g', l', es) -> (wloc l' < wloc l)%nat.
+Proof.
+  intros Hs. destruct l as [pr p sl]. unfold wloc.
+  destruct p.
+  - (* Idle *) destruct pr as [|o rest]; [discriminate|].
+    step_cases Hs; cbn [prog at_ length wpc]; try lia.
+    all: try (unfold use_code; destruct a; cbn; lia).
+  - step_cases Hs; cbn [prog at_ length wpc]; lia.
+  - step_cases Hs; cbn [prog at_ length wpc]; lia.
+  - step_cases Hs; cbn [prog at_ length wpc]; lia.
+  - step_cases Hs; cbn [prog at_ length wpc].
+    pose proof (wop_code_weight _ _ _ _ Heqo0) as Hw. destruct l as [|i rest]; cbn [wcode] in *; lia.
+  - destruct code as [|i rest]; [discriminate|]. unfold tstep0 in Hs. cbn [at_ slots prog] in Hs.
+    destruct (exec_mi_weight cf t i ph r ok g rest) as [Hnd [H1 Hd]].
+    destruct (m_thrown _); [destruct fr; inversion Hs; subst; cbn [prog at_ wpc]; lia|].
+    destruct (m_done _); cbn [negb] in Hs.
+    + specialize (Hd eq_refl).
+      destruct (match m_rest _ with Some c' => c' | None => rest end) as [|x y]; destruct fr; inversion Hs; subst;
+        cbn [prog at_ wpc wcode] in *; lia.
+    + specialize (Hnd eq_refl). inversion Hs; subst. cbn [prog at_ wpc]. lia.
+  - step_cases Hs; cbn [prog at_ length wpc]; lia.
+Qed.
+Lemma settle_weight cf t fuel : forall g l es g2 l2 es2, settle cf t fuel g l es = (g2, l2, es2) -> (wloc l2 <= wloc l)%nat.
+Proof.
+  induction fuel as [|f IH]; intros g l es g2 l2 es2 Hs; cbn [settle] in Hs; [inversion Hs; lia|].
+  destruct (silent_pc (at_ l)); [|inversion Hs; lia].
+  destruct (tstep0 cf t 0 g l) as [[[g' l'] es']|] eqn:E0; [|inversion Hs; lia].
+  pose proof (wloc_step0 _ _ _ _ _ _ _ _ E0). pose proof (IH _ _ _ _ _ _ Hs). lia.
+Qed.
+Lemma wloc_step cf t c g l g' l' es : tstep cf t c g l = Some (g', l', es) -> (wloc l' < wloc l)%nat.
+Proof.
+  intros Hs. destruct (tstep_inv _ _ _ _ _ _ Hs) as [g1 [l1 [es1 [E0 [Hn Hp]]]]].
+  pose proof (wloc_step0 _ _ _ _ _ _ _ _ E0) as H0.
+  destruct (plain cf) eqn:Ep.
+  - specialize (Hp eq_refl). symmetry in Hp. pose proof (settle_weight _ _ _ _ _ _ _ _ _ Hp). lia.
+  - injection (Hn (or_introl eq_refl)) as -> -> ->. exact H0.
+Qed.
+
+Lemma mu_dec cf (s : sysW) t c : enabledW cf s t c -> (mu (step glob loc (tstep cf) s (t, c)) < mu s)%nat.
+Proof.
+  intros [l [[[g' l'] es] [Hl Hs]]]. unfold step, sys_step. rewrite Hl, Hs. cbn [fst]. unfold mu. cbn [thr].
+  apply (sum_step_dec wloc wloc (thr s) t l l' Hl); [intros; lia|]. eapply wloc_step; eauto.
+Qed.
+
+(* the choice matters only as "time-out or not" *)
+Lemma tstep0_choice cf t c g l : c <> 2%nat -> tstep0 cf t c g l = tstep0 cf t 0 g l.
+Proof.
+  intros Hc. assert (Ha : forall am sm, acquire am sm t c g = acquire am sm t 0 g).
+  { intros am sm. unfold acquire. destruct (Nat.eqb_spec c 2); [contradiction|reflexivity]. }
+  unfold tstep0. destruct (at_ l); try reflexivity; rewrite ?Ha; try reflexivity.
+Qed.
+Lemma tstep_choice cf t c g l : c <> 2%nat -> tstep cf t c g l = tstep cf t 0 g l.
+Proof. intros Hc. unfold tstep. rewrite (tstep0_choice _ _ _ _ _ Hc). reflexivity. Qed.
+
+Lemma settled_quiescent cf (s : sysW) : settled glob loc (tstep cf) any_choice s -> quiescentW cf s.
+Proof. intros H t c _. apply H. reflexivity. Qed.
+
+Lemma pick_move cf (s : sysW) :
+  (exists t c, any_choice c = true /\ enabledW cf s t c) \/ settled glob loc (tstep cf) any_choice s.
+Proof.
+  destruct (enabled_choice_dec glob loc (tstep cf) s 0) as [[t He]|H0]; [left; exists t, 0%nat; split; [reflexivity|exact He]|].
+  destruct (enabled_choice_dec glob loc (tstep cf) s 2) as [[t He]|H2]; [left; exists t, 2%nat; split; [reflexivity|exact He]|].
+  right. intros t c _ [l [r [Hl Hs]]]. destruct (Nat.eq_dec c 2) as [->|Hne].
+  - apply (H2 t). exists l, r. auto.
+  - apply (H0 t). exists l, r. split; [exact Hl|]. rewrite <- Hs. symmetry. apply tstep_choice. exact Hne.
+Qed.
+
+Definition Ptrue (g : glob) (ls : list loc) : Prop := True.
+
+(* from every state a state in which nothing can move (under any choice) is reached by a schedule of at most
+   mu(s) steps; every enabled step lowers mu, so every schedule makes at most mu(s) moves *)
+Theorem wr_eventually_settles cf progs s : R cf progs s ->
+  exists sc, sched_ok any_choice sc /\ (length sc <= mu s)%nat /\
+             quiescent glob loc (tstep cf) (run glob loc (tstep cf) s sc).
+Proof.
+  intros _.
+  destruct (settles glob loc (tstep cf) mu Ptrue (fun _ _ _ _ _ _ _ _ _ _ _ => I) any_choice
+              (fun s0 t c _ _ He => mu_dec cf s0 t c He) (pick_move cf) s I) as [sc [Hok [Hlen Hset]]].
+  exists sc. repeat split; auto. apply settled_quiescent. exact Hset.
+Qed.
+Theorem wr_bounded_work cf (s : sysW) sc : (moves glob loc (tstep cf) s sc <= mu s)%nat.
+Proof.
+  apply (moves_le_mu glob loc (tstep cf) mu Ptrue (fun _ _ _ _ _ _ _ _ _ _ _ => I) any_choice
+           (fun s0 t c _ _ He => mu_dec cf s0 t c He) s sc I).
+  unfold sched_ok. induction sc as [|tc r IH]; [reflexivity|exact IH].
+Qed.
+
+(* well-formed clients (wf_progs: no blocking acquisition while a handle of the thread may own a lock, every
+   handle released before its thread's program ends) always finish: some schedule of at most mu(s) steps leads
+   to a state in which every program has run to completion *)
+Theorem wr_eventually_finishes cf progs s : wf_progs cf progs = true -> R cf progs s ->
+  exists sc, sched_ok any_choice sc /\ (length sc <= mu s)%nat /\
+             all_fin glob loc fin (run glob loc (tstep cf) s sc) = true.
+Proof.
+  intros Hwf HR. destruct (wr_eventually_settles cf progs s HR) as [sc [Hok [Hlen HQ]]].
+  exists sc. repeat split; auto.
+  assert (HR' : R cf progs (run glob loc (tstep cf) s sc)).
+  { destruct HR as [sc0 ->]. exists (sc0 ++ sc). symmetry. apply run_app. }
+  apply (no_deadlock_l cf progs _ HR' HQ). apply (wf_no_nesting_l cf progs _ Hwf HR').
+Qed.
